@@ -52,6 +52,7 @@ var c10CliArgs = []string{`{code}`, `{2}`, `{1}`, `1234567`, `42`, `{verb}`, `{s
 type c10CliScenario struct {
 	Globals   []string
 	FuncsText string
+	SplitAt   int // > 0: the definitions from this byte offset on go into a second funcs file (--funcs a --funcs b)
 	Tpl       string // uses the funcs file
 	RefTpl    string // bodies inlined, builtins only
 	Workers   int
@@ -75,18 +76,20 @@ func c10CliGen(t *simrt.Tape, fns []string) *c10CliScenario {
 	var file strings.Builder
 	var names []string
 	nDefs := 1 + t.W(3)
+	split := nDefs >= 2 && t.WBool(1, 3)
+	var defStart []int
 	// (random bodies call builtins only: chaining of definitions is done at the top level of a body, below)
 	bg := &xGen{t: t, fns: append([]string{"hi", "hf", "bytesize", "percent"}, xScalar...), inBody: true}
 	for i := 0; i < nDefs; i++ {
 		name := fmt.Sprintf("uf%d", i+1)
-		if i == 0 && t.WBool(1, 5) {
+		if i == 0 && (t.WBool(1, 5) || (split && t.WBool(1, 2))) {
 			name = []string{"tab", "basename", "dirname", "extname", "repeat"}[t.W(5)] // shadows a builtin the bodies never call
 		}
 		var bodyText string
 		var body *xNode
 		if t.WBool(2, 3) {
 			bodyText = c10CliBodies[t.W(len(c10CliBodies))]
-			if i > 0 && t.WBool(1, 3) {
+			if i > 0 && (t.WBool(1, 3) || (split && t.WBool(1, 2))) {
 				// a later definition calling an earlier one
 				bodyText = "{" + names[t.W(len(names))] + " {0}}+" + bodyText
 			}
@@ -100,6 +103,7 @@ func c10CliGen(t *simrt.Tape, fns []string) *c10CliScenario {
 		}
 		defs[name] = body
 		names = append(names, name)
+		defStart = append(defStart, file.Len())
 		if t.WBool(1, 3) {
 			file.WriteString("# formatting helpers\n")
 		}
@@ -118,6 +122,10 @@ func c10CliGen(t *simrt.Tape, fns []string) *c10CliScenario {
 		}
 	}
 	sc.FuncsText = file.String()
+	if split {
+		// two funcs files: a definition of the second may call one of the first (or one that replaced a builtin there)
+		sc.SplitAt = defStart[1+t.W(nDefs-1)]
+	}
 	call := &xNode{Kind: xCall, S: names[t.W(len(names))]}
 	// at least one argument: `{name}` alone is a key lookup, not a call
 	for n := 1 + t.W(3); n > 0; n-- {
@@ -218,10 +226,20 @@ func c10CliWorld(rc *RunCtx) {
 	if err := os.WriteFile("in.log", []byte(data.String()), 0o644); err != nil {
 		panic(err)
 	}
-	if err := os.WriteFile("gen.funcs", []byte(sc.FuncsText), 0o644); err != nil {
+	funcsArgs := []string{"--funcs", "gen.funcs"}
+	first := sc.FuncsText
+	if sc.SplitAt > 0 {
+		first = sc.FuncsText[:sc.SplitAt]
+		if err := os.WriteFile("gen2.funcs", []byte(sc.FuncsText[sc.SplitAt:]), 0o644); err != nil {
+			panic(err)
+		}
+		funcsArgs = append(funcsArgs, "--funcs", "gen2.funcs")
+		rc.Probes["cli-two-funcs-files"]++
+	}
+	if err := os.WriteFile("gen.funcs", []byte(first), 0o644); err != nil {
 		panic(err)
 	}
-	desc := map[string]any{"family": "cli", "globals": sc.Globals, "funcs_file": sc.FuncsText, "template": tpl, "inlined": refTpl, "workers": sc.Workers, "batch": sc.Batch, "lines": len(corpus)}
+	desc := map[string]any{"family": "cli", "globals": sc.Globals, "funcs_file": sc.FuncsText, "second_funcs_file_from_byte": sc.SplitAt, "template": tpl, "inlined": refTpl, "workers": sc.Workers, "batch": sc.Batch, "lines": len(corpus)}
 	rc.Sample = desc
 	run := func(args []string) *cliResult {
 		s := rc.NewSim(simrt.Opts{MaxSteps: 400000, IdleLimit: time.Hour})
@@ -233,7 +251,7 @@ func c10CliWorld(rc *RunCtx) {
 		return res
 	}
 	withFuncs := func(base []string) []string {
-		return append(append(append([]string{}, sc.Globals...), "--funcs", "gen.funcs"), base...)
+		return append(append(append([]string{}, sc.Globals...), funcsArgs...), base...)
 	}
 	plain := func(base []string) []string { return append(append([]string{}, sc.Globals...), base...) }
 	sortedLines := func(b []byte) []string {
